@@ -128,6 +128,37 @@ def replay_scenarios(rep, scen_cfg, max_files=400, nontrivial=None, fields=None,
   return behs
 
 
+def trace_validate(rep, n, seed_off=100, length=16):
+  """Code -> specification: random histories of the real gin (drivers_core) validated by TLC against GinCore."""
+  import random
+  from ginverif import drivers_core
+  rng = random.Random(rep.seed * 9973 + seed_off)
+  traces = [drivers_core.drive(rng, length) for _ in range(n)]
+  batch = 150
+  for i in range(0, n, batch):
+    chunk = traces[i:i + batch]
+    verdicts, res = tlc.validate_traces('GinCore_Trace', 'GinCore_Trace.cfg', chunk, timeout=2400)
+    rep.add_tlc('GinCore_Trace[%d:%d]' % (i, i + len(chunk)), res)
+    if res.violation:
+      rep.violation(dict(kind='trace-invariant', module='GinCore', invariant=res.violation),
+                    dict(kind='core-traces', traces=chunk, tlc=res.stdout[-2000:]))
+    for t, (ok, far) in zip(chunk, verdicts):
+      rep.traces_validated += 1
+      rep.evaluations += len(t['events'])
+      for e in t['events']:
+        if e['op'] == 'Call' and e['status'] == 'ok' and (e['pargs'] or e['ckw'] or len(e['evals']) > 1):
+          rep.nontrivial_case(core.jdump([e['sel'], e['pargs'], e['ckw'], e['delivered'], [[x['sel'], x['scope']] for x in e['evals']]]))
+      if not ok:
+        ev = t['events'][far - 1] if 0 < far <= len(t['events']) else None
+        rep.violation(dict(kind='trace-rejected', module='GinCore', op=ev['op'] if ev else None),
+                      dict(kind='core-trace', trace=t, rejected_at=far,
+                           event={k: v for k, v in (ev or {}).items() if k != 'post'}))
+  if traces:
+    rep.sample(dict(kind='random history of the real gin, validated by TLC against GinCore',
+                    events=[{k: v for k, v in e.items() if k in ('op', 'api', 'scope', 'sel', 'param', 'val', 'how', 'comps', 'pargs', 'ckw', 'status')}
+                            for e in traces[0]['events'][:8]]))
+
+
 def replay_file(prop, path, fields=None):
   with open(path) as fh:
     blob = json.load(fh)
@@ -139,5 +170,12 @@ def replay_file(prop, path, fields=None):
     if d:
       print('VIOLATION property=%s replay=%s' % (prop, path))
     return 1 if d else 0
+  if r.get('kind') == 'core-trace':
+    verdicts, res = tlc.validate_traces('GinCore_Trace', 'GinCore_Trace.cfg', [r['trace']])
+    bad = not verdicts[0][0] or bool(res.violation)
+    print('verdict: %s violation=%s' % (verdicts[0], res.violation))
+    if bad:
+      print('VIOLATION property=%s replay=%s' % (prop, path))
+    return 1 if bad else 0
   print('unknown replay kind %r' % r.get('kind'))
   return 2
